@@ -129,7 +129,9 @@ def part_admon(chk):
             if code & 1:
                 found = bool(code & 2) and region == 0
                 report(chk, "failing-input" if found else "broken-correspondence",
-                       {"what": "AdmonitionPreprocessor.run vs model", "part": "admon", "lines": lines,
+                       {"what": ("the pre-processor drops, duplicates or reorders words, or raises an undocumented "
+                                 "exception on clean lines (it also differs from the model)") if found
+                        else "AdmonitionPreprocessor.run vs model", "part": "admon", "lines": lines,
                         "impl": res, "code": code}, found)
             elif code & 2:
                 chk.disagreements += 1
@@ -222,6 +224,15 @@ def check_entity(d, got):
     for k, v in d["meta"].items():
         if got["meta"].get(k) != v:
             probs.append(("metadata-not-set", {"key": k, "expected": v, "got": got["meta"].get(k)}))
+    if d.get("inside"):
+        # support for C03_admon_indent: the first paragraph of a top-level box is rendered inside a box
+        import bs4
+        boxed = set()
+        for div in bs4.BeautifulSoup(got["doc"] or "", "html.parser").find_all("div", class_="alert"):
+            boxed |= set(TW.findall(div.get_text()))
+        outside = [w for w in d["inside"] if w not in boxed]
+        if outside and words == d["words"]:
+            probs.append(("box-text-outside-box", {"words": outside}))
     if got["summary"]:
         import bs4
         sw = TW.findall(bs4.BeautifulSoup(got["summary"], "html.parser").get_text())
